@@ -31,7 +31,7 @@ struct HsMsg { uint8_t type = 0; uint16_t msn = 0; Bytes body; uint8_t v1 = 0xfe
 struct Item { bool is_msg = false; HsMsg m; Bytes rec; };
 struct Edit { uint8_t kind, idx; uint16_t val; };
 struct Slot { uint8_t when, src, cl, msnmode, dl, t2sel, l2, m2, f2, nf; uint16_t cut[7]; uint8_t ne; Edit ed[3]; uint8_t order, oseed; uint16_t pack; uint8_t be, be1, be2; };
-struct Plan { uint8_t cfg, suite, misc, timeouts; Slot s[2]; };
+struct Plan { uint8_t cfg, suite, misc, timeouts, hv; Slot s[2]; };
 struct Frag { uint32_t off, flen, decl; uint16_t msn; uint8_t type; int dlen; };
 struct Obs { std::vector<int> rcs; std::vector<Bytes> out; std::vector<size_t> out_at; size_t outbytes = 0; int state = 0; bool failed = false, complete = false; };
 
@@ -89,7 +89,7 @@ struct Run {
     struct SidHolder { sslSessionId_t *s = nullptr; ~SidHolder() { if (s) matrixSslDeleteSessionId(s); } } sidh;   // declared before the pair: outlives the sessions
     struct KeyHolder { sslKeys_t *k = nullptr; ~KeyHolder() { if (k) matrixSslDeleteKeys(k); } } ck, sk;             // freshly loaded per run: the ephemeral-key cache inside sslKeys_t must not carry over from one run to the next
     Pair p; Endpoint *V = nullptr, *P = nullptr; bool vclient = false;
-    bool verbose2 = false; uint64_t seq0 = 0; unsigned ordinal = 0, deliveries = 0; bool want_second = false; bool applied[2] = { false, false };
+    bool verbose2 = false; bool hv_on = false; int hv_stage = 0; uint8_t recv2 = 0xfd; uint64_t seq0 = 0; unsigned ordinal = 0, deliveries = 0; bool want_second = false; bool applied[2] = { false, false }; bool scripted = false;
     std::string shape, mutdesc;
     Run(const Plan &plan, Ctx &ctx, bool st) : pl(plan), c(ctx), stats(st) {}
 
@@ -133,6 +133,7 @@ struct Run {
         }
         return items;
     }
+    HsMsg synth_hvr(int cl, uint16_t msn, uint8_t salt) { HsMsg m; m.type = 3; m.msn = msn; m.v1 = 0xfe; m.v2 = recv2; m.body = { 0xfe, recv2, (uint8_t) cl }; for (int i = 0; i < cl; i++) m.body.push_back((uint8_t) (0xC0 + (i & 31) + salt)); return m; }
     void send_plain(const HsMsg &m) {   // the message as a well-behaved sender would put it on the wire
         size_t L = m.body.size(), step = L <= 1400 ? std::max<size_t>(L, 1) : 1100;
         for (size_t o = 0; o == 0 || o < L; o += step) { Frag f{ (uint32_t) o, (uint32_t) std::min(step, L - o), (uint32_t) L, m.msn, m.type, -1 }; deliver(record(22, m.v1, m.v2, seq0++, frag_bytes(f, m.body))); }
@@ -144,15 +145,15 @@ struct Run {
         case 1: case 2: { static const int CL[] = { 0, 1, 32, 255, 16, -1 }; int cl = CL[s.cl % 6]; if (cl < 0) cl = s.cl; m.type = 3; m.body = { 0xfe, orig.v2, (uint8_t) cl }; for (int i = 0; i < cl; i++) m.body.push_back((uint8_t) (0xC0 + (i & 31) + s.cl)); deliver_orig_after = (s.src % 4 == 2); what = fmt("synthetic HelloVerifyRequest cookie=%d%s", cl, deliver_orig_after ? " inserted before" : " replacing"); break; }
         default: if (orig.type == 1 || orig.type == 2) { std::string w; if (edit_hello(m, s, w)) what = "body edit: " + w; } else if (!m.body.empty()) { size_t o = ((size_t) s.be1 << 4 | (s.be >> 4)) % m.body.size(); m.body[o] = s.be2; what = fmt("body byte %zu := %02x", o, s.be2); } break;
         }
-        switch (s.msnmode % 4) { case 0: break; case 1: m.msn = (uint16_t) (orig.msn + 1); break; case 2: if (m.msn) m.msn--; break; default: m.msn = 0; }
+        switch (s.msnmode % 8) { case 4: m.msn = (uint16_t) (orig.msn + 1); break; case 5: if (m.msn) m.msn--; break; case 6: m.msn = 0; break; case 7: m.msn = (uint16_t) (orig.msn + 2); break; default: break; }
         // declared length and tail
-        Bytes body = m.body; size_t L = body.size(); const char *dlname = "exact";
+        Bytes body = m.body; size_t L = body.size(); const char *dlname = "exact"; if (m.type == 3) m.v2 = recv2;
         uint8_t next_type = 0; for (size_t j = pos + 1; j < flight.size(); j++) if (flight[j].is_msg) { next_type = flight[j].m.type; break; }
         if (m.type == 3) next_type = 2; if (!next_type) next_type = orig.type;
         auto nested = [&](bool fragment) { Bytes h; uint8_t t2 = (s.t2sel & 3) <= 1 ? next_type : (s.t2sel & 3) == 2 ? m.type : HSTYPES[(s.t2sel >> 2) % 10]; uint32_t l2 = s.l2, f2 = fragment ? std::min<uint32_t>(s.f2 % 16, l2) : l2; if (fragment && f2 == l2) l2 = f2 + 1 + (s.l2 & 63);
             h.push_back(t2); put24(h, l2); put16(h, (uint16_t) (m.msn + ((s.m2 & 3) == 3 ? 0 : 1) + ((s.m2 & 12) == 12 ? 1 : 0))); put24(h, (s.m2 & 0x30) == 0x30 ? (s.m2 >> 6) : 0); put24(h, f2); for (uint32_t i = 0; i < f2; i++) h.push_back((uint8_t) (0x30 + i)); return h; };
-        switch (s.dl % 6) {
-        case 1: { Bytes n = nested(true); body.insert(body.end(), n.begin(), n.end()); dlname = "nested-fragment-tail"; break; }
+        switch (s.dl % 8) {
+        case 1: case 7: { Bytes n = nested(true); body.insert(body.end(), n.begin(), n.end()); dlname = "nested-fragment-tail"; break; }
         case 2: { size_t n = 1 + s.l2 % 16; for (size_t i = 0; i < n; i++) body.push_back((uint8_t) (0x70 + i)); dlname = "filler-tail"; break; }
         case 3: if (L) { body.resize(L - (1 + s.l2 % std::min<size_t>(L, 16))); dlname = "shorter"; } break;
         case 4: { Bytes n = nested(false); body.insert(body.end(), n.begin(), n.end()); dlname = "nested-message-tail"; break; }
@@ -190,7 +191,7 @@ struct Run {
             if (zero) c.count("mut:zero-length-fragment"); if (overlap) c.count("mut:overlap"); if (hole) c.count("mut:hole"); if (hole && sum >= D) c.count("mut:hole-but-length-sum-reaches-total"); if (full && !overlap && n > 1) c.count("mut:exact-tiling-several-fragments"); if (ne) c.count("mut:edited"); c.count(fmt("mut:target:%s", hsname(orig.type))); if (live) c.count("mut:reached-live-victim");
             mutdesc += fmt(" [%s(msn %u, %zu bytes) -> %s, msn %u, declared %u (%s), %zu fragments:", hsname(orig.type), orig.msn, orig.body.size(), what.c_str(), m.msn, D, dlname, n);
             for (auto &f : fr) mutdesc += fmt(" (%u,%u%s)", f.off, f.flen, f.dlen >= 0 ? "*" : ""); mutdesc += "]";
-            shape += fmt("|%u:%u:%u:%u:%zu:%d%d%d:%u", orig.type, s.src % 4, s.dl % 6, s.msnmode % 4, std::min<size_t>(n, 9), zero, overlap, hole, ne); }
+            shape += fmt("|%u:%u:%u:%u:%zu:%d%d%d:%u", orig.type, s.src % 4, s.dl % 8, s.msnmode % 8, std::min<size_t>(n, 9), zero, overlap, hole, ne); }
         if (c.verbose && stats) fprintf(stderr, "  mutation:%s\n", mutdesc.c_str());
         // framing and delivery
         std::vector<Bytes> dgrams; Bytes payload, dgram; bool have_rec = false;
@@ -221,8 +222,14 @@ struct Run {
         if (p.s.open(sc) < 0 || p.c.open(cc) < 0) throw Discard{};
         V = vclient ? &p.c : &p.s; P = vclient ? &p.s : &p.c;
         unsigned timeouts = pl.timeouts % 3, sent_app = 0;
+        recv2 = d10 ? 0xff : 0xfd; hv_on = vclient && (pl.hv & 3) == 3;
         for (int round = 0; round < 48; round++) {
             give_to_peer();
+            if (hv_on && hv_stage == 1) {   // HelloVerifyRequest script, second request: arrives after the client has answered the first one with its cookie-bearing ClientHello
+                static const int CL2[] = { 0, 1, 8, 17, 32, 64, 255, 16 }; int cl = CL2[(pl.hv >> 5) & 7]; uint16_t msn = (pl.misc >> 6) == 3 ? 0 : (pl.misc >> 6) == 2 ? 2 : 1; hv_stage = 2;
+                if (stats) { c.count("hvr-script:second-request"); mutdesc += fmt(" [second HelloVerifyRequest msn %u cookie=%d]", msn, cl); shape += fmt("|hv2:%d:%u", cl, msn); }
+                send_plain(synth_hvr(cl, msn, 0x11));
+            }
             std::vector<Item> fl = take_flight();
             if (fl.empty()) {
                 if (V->hs_complete() && P->hs_complete() && P->alive() && V->alive() && sent_app < 2) { Bytes a(5 + sent_app, 0x61), b(9, 0x62); P->send(a); V->send(b); sent_app++; continue; }
@@ -234,6 +241,11 @@ struct Run {
                 if (!it.is_msg) { Bytes r = it.rec; if (r.size() >= 13 && r[3] == 0 && r[4] == 0) { uint64_t q = seq0++; for (int k = 0; k < 6; k++) r[5 + k] = (uint8_t) (q >> (8 * (5 - k))); } deliver(r); continue; }
                 unsigned ord = ordinal++; bool done = false;
                 for (int si = 0; si < 2 && !done; si++) if (pl.s[si].when && (unsigned) ((pl.s[si].when - 1) % 8) == ord && !applied[si]) { applied[si] = true; mutate(pl.s[si], it.m, fl, i); done = true; }
+                if (!done && hv_on && hv_stage == 0 && ord == 0 && it.m.type == 3) {   // HelloVerifyRequest script, first request: the server's, or one with another cookie length
+                    static const int CL1[] = { -1, 0, 1, 8, 16, 32, 255, 200 }; int cl = CL1[(pl.hv >> 2) & 7]; hv_stage = 1; done = true; scripted = true;
+                    if (stats) { c.count("hvr-script:first-request"); mutdesc += fmt(" [first HelloVerifyRequest cookie=%d]", cl < 0 ? (int) it.m.body.size() - 3 : cl); shape += fmt("|hv1:%d", cl); }
+                    if (cl < 0) send_plain(it.m); else send_plain(synth_hvr(cl, it.m.msn, 0));
+                }
                 if (!done) send_plain(it.m);
             }
         }
@@ -244,9 +256,9 @@ struct Run {
 } // namespace
 
 static void prop(Tape &t, Ctx &c) {
-    Plan pl; pl.cfg = t.u8(); pl.suite = t.u8(); pl.misc = t.u8(); pl.timeouts = t.u8(); pl.s[0] = read_slot(t); pl.s[1] = read_slot(t);
+    Plan pl; pl.cfg = t.u8(); pl.suite = t.u8(); pl.misc = t.u8(); pl.timeouts = t.u8(); pl.hv = t.u8(); pl.s[0] = read_slot(t); pl.s[1] = read_slot(t);
     Obs a; bool second; std::string desc, mut, shape; bool any;
-    { Run r(pl, c, true); r.go(0x00); a = r.obs; second = r.want_second || (pl.misc & 7) == 7; desc = r.desc; mut = r.mutdesc; shape = r.shape; any = r.applied[0] || r.applied[1]; }
+    { Run r(pl, c, true); r.go(0x00); a = r.obs; second = r.want_second || (pl.misc & 7) == 7; desc = r.desc; mut = r.mutdesc; shape = r.shape; any = r.applied[0] || r.applied[1] || r.scripted; }
     if (any) c.nontrivial(fmt("%u|%u", pl.cfg & 7, a.failed ? 1 : a.complete ? 2 : 0) + shape); else c.count("no-mutation-applied");
     if (!c.replaying && ((c.evaluations & 31) == 0 || c.verbose)) c.sample(desc + mut + fmt(" -> victim %s", a.complete ? "completed" : a.failed ? "error" : "waiting"));
     if (second) {
